@@ -1,5 +1,6 @@
 import CpModel.Ssh.Banner
 import CpProofs.Codec2
+import CpSpec.Ssh
 /- The identification string: consumed length within the buffer, positive, at most 255. -/
 namespace Cp.Ssh
 open Cp Cp.Codec
@@ -26,7 +27,7 @@ theorem banner_len_bound (bs : Bytes) (b : Banner) (n : Nat) (h : parseBanner bs
       | error e => simp [h1, bind, Except.bind] at h
       | ok u1 =>
         simp only [h1, bind, Except.bind] at h
-        cases h2 : parseProtocolVersion (bs.drop 4) with
+        cases h2 : bannerVersion (bs.drop 4) with
         | error e => simp [h2] at h
         | ok r2 =>
           obtain ⟨⟨major, minor⟩, nv⟩ := r2
@@ -59,3 +60,134 @@ theorem banner_len_bound (bs : Bytes) (b : Banner) (n : Nat) (h : parseBanner bs
                       simp only [List.length_drop] at hl hl2 hline
                       simp only [beq_iff_eq] at hline
                       omega
+
+/-! ### C02 for the identification string (true since the repair) -/
+
+theorem parseVendor_noCrash (cls : String) (vendor sep sv : Bytes) (k : String) :
+    parseVendor cls vendor sep sv ≠ .error (.crash k) := by
+  unfold parseVendor
+  split
+  · split
+    · simp
+    · split <;> simp
+  · simp only []
+    split
+    · simp
+    · split
+      · simp
+      · split <;> simp
+
+theorem parseVendorVariants_noCrash (sv : Bytes) (vs : List (String × Bytes × Bytes)) (k : String) :
+    parseVendorVariants sv vs ≠ .error (.crash k) := by
+  induction vs with
+  | nil => simp [parseVendorVariants]
+  | cons v more ih =>
+    obtain ⟨cls, vendor, sep⟩ := v
+    simp only [parseVendorVariants]
+    split
+    · exact ih
+    · exact parseVendor_noCrash _ _ _ _ _
+
+theorem parseSoftwareVersion_noCrash (sv : Bytes) (k : String) : parseSoftwareVersion sv ≠ .error (.crash k) := by
+  unfold parseSoftwareVersion
+  split
+  · split <;> simp
+  · exact parseVendorVariants_noCrash _ _ _
+
+theorem bannerLine_noCrash (line : Bytes) (k : String) : bannerLine line ≠ .error (.crash k) := by
+  unfold bannerLine
+  simp only []
+  split
+  · next e he =>
+    intro h; cases h
+    exact parseSoftwareVersion_noCrash _ _ he
+  · simp
+
+theorem bannerVersion_noCrash (bs : Bytes) (k : String) : bannerVersion bs ≠ .error (.crash k) := by
+  unfold bannerVersion
+  split
+  · simp
+  · next r hr =>
+    intro h
+    exact hr k h
+
+theorem expectByte_noCrash (c : UInt8) (bs : Bytes) (k : String) : expectByte c bs ≠ .error (.crash k) := by
+  unfold expectByte
+  split
+  · split <;> simp
+  · simp
+
+/-- the identification string fails only with the four documented parse errors -/
+theorem banner_noCrash : NoCrash bannerCodec := by
+  intro bs k
+  simp only [bannerCodec]
+  unfold parseBanner
+  split
+  · simp
+  · split
+    · simp
+    · cases h1 : expectByte 0x2d (bs.drop 3) with
+      | error e =>
+        simp only [bind, Except.bind]
+        intro h; cases h
+        exact expectByte_noCrash _ _ _ h1
+      | ok u1 =>
+        simp only [bind, Except.bind]
+        cases h2 : bannerVersion (bs.drop 4) with
+        | error e =>
+          intro h; cases h
+          exact bannerVersion_noCrash _ _ h2
+        | ok r2 =>
+          obtain ⟨⟨major, minor⟩, nv⟩ := r2
+          simp only []
+          cases h3 : expectByte 0x2d (bs.drop (4 + nv)) with
+          | error e =>
+            intro h; cases h
+            exact expectByte_noCrash _ _ _ h3
+          | ok u3 =>
+            simp only []
+            split
+            · simp
+            · split
+              · simp
+              · cases h4 : bannerLine (List.takeWhile (fun x => x != 10) (List.drop (5 + nv) bs)) with
+                | error e =>
+                  intro h; cases h
+                  exact bannerLine_noCrash _ _ h4
+                | ok r4 =>
+                  simp only []
+                  split
+                  · simp
+                  · split <;> simp [pure, Except.pure]
+
+/-- the banner composer writes the RFC 4253 §4.2 identification string, and nothing when that would
+be longer than the 255 bytes the RFC allows -/
+theorem banner_compose_spec (major minor : Nat) (raw : Bytes) (comment : Option Bytes) :
+    composeBanner ⟨major, minor, ⟨"SshSoftwareVersionUnparsed", some raw⟩, comment⟩ =
+      if (Spec.Ssh.identification major minor raw comment).length ≤ 255
+      then .ok (Spec.Ssh.identification major minor raw comment)
+      else .error (.tooMuch (((Spec.Ssh.identification major minor raw comment).length - 255 : Nat) : Int)) := by
+  have hite : ∀ out : Bytes, (if out.length > 255 then Except.error (PErr.tooMuch ((out.length - 255 : Nat) : Int))
+      else (Except.ok out : Except PErr Bytes)) =
+      if out.length ≤ 255 then .ok out else .error (.tooMuch ((out.length - 255 : Nat) : Int)) := by
+    intro out
+    by_cases hl : out.length ≤ 255
+    · have : ¬ out.length > 255 := by omega
+      simp [hl, this]
+    · have : out.length > 255 := by omega
+      simp [hl, this]
+  cases comment with
+  | none =>
+    have hout : ssh ++ [0x2d] ++ (digitsOfNat major ++ [0x2e] ++ digitsOfNat minor) ++ [0x2d] ++ raw ++ [] ++ [0x0d, 0x0a] =
+        Spec.Ssh.identification major minor raw none := by
+      simp [Spec.Ssh.identification, ssh, digitsOfNat, Spec.Ssh.digits]
+    simp only [composeBanner, composeProtocolVersion, composeSoftwareVersion, bind, Except.bind, pure, Except.pure,
+      beq_self_eq_true, if_true, hout, hite]
+  | some c =>
+    have hout : ssh ++ [0x2d] ++ (digitsOfNat major ++ [0x2e] ++ digitsOfNat minor) ++ [0x2d] ++ raw ++ (0x20 :: c) ++
+        [0x0d, 0x0a] = Spec.Ssh.identification major minor raw (some c) := by
+      simp [Spec.Ssh.identification, ssh, digitsOfNat, Spec.Ssh.digits]
+    simp only [composeBanner, composeProtocolVersion, composeSoftwareVersion, bind, Except.bind, pure, Except.pure,
+      beq_self_eq_true, if_true, hout, hite]
+
+end Cp.Ssh
